@@ -307,7 +307,8 @@ int main( int argc, char** argv )
     rep.unit = a.opt.count( "unit" ) ? a.opt[ "unit" ] : mc::fmt( "C19_tx-mtu%d-max%d", MTU, MAXS );
     static World w;
     mc::BfsOptions o;
-    o.max_depth = int( a.num( "depth", a.thorough() ? 7 : 5 ) );
+    // with the max_tx_size switch (configurations other than 29) the state space is several times larger: fewer levels
+    o.max_depth = int( a.num( "depth", MAXS != 29 ? ( a.thorough() ? 5 : 4 ) : ( a.thorough() ? 7 : 5 ) ) );
     o.max_states = 3000000;
     o.with_drain = true;
     mc::Bfs< World > bfs( w, rep, a, o );
